@@ -114,10 +114,11 @@ class GroupCoordinator:
         mid = obj["member_id"]
         protocols = [(p["protocol_name"], bytes(p["protocol_metadata"])) for p in obj["group_protocols"]]
         self.c.ev("join_request", group=g.gid, member=mid, protocols=[p[0] for p in protocols],
-                  state=g.state, version=cls.API_VERSION)
+                  state=g.state, version=cls.API_VERSION, client=info.get("client"))
         if mid == "":
             g.member_seq += 1
             mid = f"m{g.member_seq}-{info['cid']}"
+            self.c.ev("member_id_assigned", group=g.gid, member=mid, client=info.get("client"))
             if cls.API_VERSION >= 4:
                 g.pending_ids.add(mid)
                 base["error_code"] = C.MEMBER_ID_REQUIRED
